@@ -349,7 +349,13 @@ pub fn run(mut cx: Ctx) -> ! {
     }
     cx.extra.insert("per_scenario".into(), json!(per));
     cx.bound("scenarios", list.len());
-    cx.assume("tokio runtime: not explored here (its scheduler and tokio::net are outside the controlled facade); see DESIGN.md");
+    // the explored traffic states, free-running on real threads and real loopback sockets
+    let mut st = Stats::default();
+    crate::props::c20_real::run_replays(&mut st, cx.quick());
+    cx.stats.merge(st);
+    // and against the real tokio App::run (states replayed, schedules not enumerated)
+    crate::tokio_twin::merge(&mut cx, "C20");
+    cx.assume("tokio runtime: schedules are not enumerated (its scheduler and tokio::net are outside the controlled facade); each traffic state is replayed once against the real tokio App::run on loopback with a 5 s bound");
     cx.assume("promptness is decided in virtual time: `run` returns without any timer having to fire");
     cx.finish()
 }
